@@ -4,9 +4,9 @@ From Y0 Require Import Base.ListSet Dsl.Syntax.
 Import ListNotations.
 Open Scope string_scope.
 
-(* the harness' name table: 0..23 = A..Z without P and Q; 50+d = "T_V<d>"; 100+d = "V<d>"; 200+d = "pi<d>"; 210 = "pi*" *)
+(* the harness' name table: 0..23 = A..Z without P and Q; 24 = "Z10", 25 = "Z2" (names of different lengths, in string order); 50+d = "T_V<d>"; 100+d = "V<d>"; 200+d = "pi<d>"; 210 = "pi*" *)
 Definition alphabet : list string :=
-  ["A";"B";"C";"D";"E";"F";"G";"H";"I";"J";"K";"L";"M";"N";"O";"R";"S";"T";"U";"V";"W";"X";"Y";"Z"].
+  ["A";"B";"C";"D";"E";"F";"G";"H";"I";"J";"K";"L";"M";"N";"O";"R";"S";"T";"U";"V";"W";"X";"Y";"Z";"Z10";"Z2"].
 Definition digit (d : nat) : string := nth d ["0";"1";"2";"3";"4";"5";"6";"7";"8";"9"] "?".
 Definition name_str (n : nat) : string :=
   if Nat.leb 50 n && Nat.ltb n 60 then "T_V" ++ digit (n - 50)
